@@ -14,7 +14,7 @@ EXTENDS Util
 Cust(inst)    == 1..inst.N
 Actions(inst) == 0..inst.N
 InstanceOK(inst) ==
-  /\ inst.N >= 1 /\ inst.req >= 1 /\ inst.unit >= 1
+  /\ inst.N >= 1 /\ inst.req >= 0 /\ inst.unit >= 1      \* requirement 0: the depot is open from the start
   /\ \A j \in Cust(inst) : inst.prize[j] >= 0 /\ inst.pen[j] >= 0
 
 (* ------------------------- PART 1: ground truth ------------------------- *)
